@@ -85,6 +85,14 @@ func c15Value(c *sim.Ctx, v uint32) *sim.Violation {
 }
 
 func c15Sequence(c *sim.Ctx, s []byte) *sim.Violation {
+	if len(s) >= 1 && len(s) <= 6 {
+		// the same sequence with nine more bytes behind it (an integer in the middle
+		// of a body: a decoder that looks at a machine word at a time sees them)
+		long := append(append(make([]byte, 0, len(s)+9), s...), s[0]&0x7f, 'x', 'y', 'z', 0x00, 0x01, 0x7f, 0x00, 0x00)
+		if v := c15Sequence(c, long); v != nil {
+			return v
+		}
+	}
 	var uv, sv uint32
 	var uerr, serr error
 	if pi := sim.Guard(func() { uv, _, uerr = mq.VerifVbintUnmarshal(s) }); pi != nil {
